@@ -9,21 +9,21 @@
 
 #ifdef VERIF_CBMC
 /* constant-time comparison record */
-int G_scmp_last; size_t G_scmp_n; const void *G_scmp_a; const void *G_scmp_b; unsigned G_scmp_calls;
-unsigned G_cbcd_calls; size_t G_cbcd_nblocks; const void *G_cbcd_in; const void *G_cbcd_out;
+int G_scmp_last; size_t G_scmp_n; size_t G_scmp_a; size_t G_scmp_b; unsigned G_scmp_calls;
+unsigned G_cbcd_calls; size_t G_cbcd_nblocks; size_t G_cbcd_in; size_t G_cbcd_out;
 unsigned G_cbce_calls;
 #endif
 
 int gmssl_secure_memcmp(const volatile void * volatile in_a, const volatile void * volatile in_b, size_t len)
-REQUIRES(len == 0 || (RD_OK((const void *)in_a, len) && RD_OK((const void *)in_b, len)))
+REQUIRES(len == 0 || (RD_OK((size_t)in_a, len) && RD_OK((size_t)in_b, len)))
 ASSIGNS(G_scmp_last, G_scmp_n, G_scmp_a, G_scmp_b, G_scmp_calls)
-ENSURES(G_scmp_last == RET && G_scmp_n == len && G_scmp_a == (const void *)in_a && G_scmp_b == (const void *)in_b && G_scmp_calls == OLD(G_scmp_calls) + 1)
+ENSURES(G_scmp_last == RET && G_scmp_n == len && G_scmp_a == (size_t)in_a && G_scmp_b == (size_t)in_b && G_scmp_calls == OLD(G_scmp_calls) + 1)
 ;
 
 void sm4_cbc_decrypt_blocks(const SM4_KEY *key, uint8_t iv[16], const uint8_t *in, size_t nblocks, uint8_t *out)
 REQUIRES(RD_OK(key, sizeof(*key)) && RW_OK(iv, 16) && nblocks <= 4096 && (nblocks == 0 || (RD_OK(in, 16 * nblocks) && WR_OK(out, 16 * nblocks))))
 ASSIGNS(OBJ_UPTO(iv, 16); nblocks != 0: OBJ_UPTO(out, 16 * nblocks); G_cbcd_calls, G_cbcd_nblocks, G_cbcd_in, G_cbcd_out)
-ENSURES(G_cbcd_calls == OLD(G_cbcd_calls) + 1 && G_cbcd_nblocks == nblocks && G_cbcd_in == (const void *)in && G_cbcd_out == (const void *)out)
+ENSURES(G_cbcd_calls == OLD(G_cbcd_calls) + 1 && G_cbcd_nblocks == nblocks && G_cbcd_in == (size_t)in && G_cbcd_out == (size_t)out)
 ;
 
 void sm4_cbc_encrypt_blocks(const SM4_KEY *key, uint8_t iv[16], const uint8_t *in, size_t nblocks, uint8_t *out)
@@ -47,7 +47,7 @@ ASSIGNS(inlen >= 16: OBJ_UPTO(out, inlen - 16); *outlen, G_scmp_last, G_scmp_n, 
 	G_cbcd_calls, G_cbcd_nblocks, G_cbcd_in, G_cbcd_out, G_hfin_fed, G_hfin_tbyte, G_hfin_tseen, G_hfin_calls, G_hfin_mac)
 ENSURES(RET == 1 || RET == -1)
 ENSURES(RET == 1 IMPLIES inlen % 16 == 0 && inlen >= 64 && inlen <= 16 + 16384 + 32 + 256)
-ENSURES(RET == 1 IMPLIES G_cbcd_calls == OLD(G_cbcd_calls) + 1 && G_cbcd_nblocks == (inlen - 16) / 16 && G_cbcd_in == (const void *)(in + 16) && G_cbcd_out == (const void *)out)
+ENSURES(RET == 1 IMPLIES G_cbcd_calls == OLD(G_cbcd_calls) + 1 && G_cbcd_nblocks == (inlen - 16) / 16 && G_cbcd_in == (size_t)(in + 16) && G_cbcd_out == (size_t)out)
 /* padding_len = out[inlen-17]; body = payload || mac(32) || padding(padding_len) || padding_len */
 ENSURES(RET == 1 IMPLIES (size_t)out[inlen - 17] + 1 + 32 <= inlen - 16 && *outlen == inlen - 16 - 33 - out[inlen - 17])
 ENSURES((RET == 1 && verif_gk < (size_t)out[inlen - 17]) IMPLIES out[(inlen - 16) - out[inlen - 17] - 1 + verif_gk] == out[inlen - 17])
@@ -58,7 +58,7 @@ ENSURES((RET == 1 && G_tk == 11) IMPLIES (G_hfin_tseen == 1 && G_hfin_tbyte == (
 ENSURES((RET == 1 && G_tk == 12) IMPLIES (G_hfin_tseen == 1 && G_hfin_tbyte == (uint8_t)(*outlen)))
 ENSURES((RET == 1 && G_tk >= 13 && G_tk < 13 + *outlen) IMPLIES (G_hfin_tseen == 1 && G_hfin_tbyte == out[G_tk - 13]))
 ENSURES(RET == 1 IMPLIES G_scmp_calls == OLD(G_scmp_calls) + 1 && G_scmp_last == 0 && G_scmp_n == 32
-	&& ((G_scmp_a == (const void *)(out + *outlen) && G_scmp_b == G_hfin_mac) || (G_scmp_b == (const void *)(out + *outlen) && G_scmp_a == G_hfin_mac)))
+	&& ((G_scmp_a == (size_t)(out + *outlen) && G_scmp_b == G_hfin_mac) || (G_scmp_b == (size_t)(out + *outlen) && G_scmp_a == G_hfin_mac)))
 ;
 
 #endif
